@@ -51,7 +51,8 @@ _used = set()
 def cache_get(key):
     if os.environ.get("AXV_NO_CACHE"):
         return None
-    for root in (os.path.join(CACHE, "results"), COMMITTED):
+    roots = (os.path.join(CACHE, "results"),) if os.environ.get("AXV_NO_COMMITTED_CACHE") else (os.path.join(CACHE, "results"), COMMITTED)
+    for root in roots:
         p = os.path.join(root, key[:2], key + ".json")
         try:
             with open(p) as f:
